@@ -93,6 +93,18 @@ func init() {
 
 func directedMixes() [][]string {
 	return [][]string{
+		// overlapping Close calls (both fire at the same instant), the packet loop and background still running
+		{"Close", "Close", "Notify", "purge", "Parse.fast"},
+		{"arp.Close", "arp.Close", "arp.ProcessPacket", "arp.StartHunt", "arp.IsHunting"},
+		{"icmp6.Close", "icmp6.Close", "icmp6.ProcessPacket.RA", "icmp6.StartHunt", "icmp6.StopHunt"},
+		{"dhcp4.Close", "dhcp4.Close", "dhcp4.ProcessPacket", "dhcp4.MinuteTicker"},
+		{"dns.Close", "dns.ProcessDNS", "dns.ProcessMDNS", "dns.DNSFind"},
+		// IPv6 hosts: icmp6.PrintTable's row-locked read of Host.Online against the packet loop and purge
+		{"Parse.fast", "Parse.slow", "icmp6.PrintTable", "purge"},
+		{"DHCPv4Update", "icmp6.PrintTable", "dhcp4.ProcessPacket", "purge"},
+		// host creation (names, manufacturer) against purge's notifications
+		{"Parse.slow", "DHCPv4Update", "purge", "Notify"},
+		{"dhcp4.ProcessPacket", "purge", "PrintTable", "SetDHCPv4IPOffer"},
 		{"Parse.fast", "purge"},
 		{"Parse.fast", "Notify", "purge", "PrintTable"},
 		{"Parse.slow", "Notify.dhcp", "purge", "DHCPv4Update"},
@@ -144,6 +156,10 @@ func setup(c *ctx) {
 		c.fast = append(c.fast, udpFrame(mac(i), ip4(130+i), 40000, 9999))
 	}
 	c.fast = append(c.fast, udpFrame(mac(1), ip4(139), 40000, 9999))
+	for i := 1; i <= 2; i++ { // IPv6 link-local hosts of MAC 1 and 2
+		src := netip.AddrFrom16([16]byte{0xfe, 0x80, 0, 0, 0, 0, 0, 0, 0, 0, 0, 0, 0, 0, 1, byte(i)})
+		c.fast = append(c.fast, lib.MkEther(lib.RouterMAC, mac(i), 0x86dd, lib.MkIP6(src, lib.RouterLLA, 17, 64, lib.MkUDP(40000, 9999, []byte("payload6")))))
+	}
 	for _, f := range c.fast {
 		fr, err := c.s.Parse(f)
 		if err != nil {
@@ -375,6 +391,7 @@ func childMain() {
 		}
 	}
 	var pkt []*opDef
+	onceAt := map[string]time.Duration{}
 	for _, o := range mix {
 		d := findOp(o)
 		if d == nil {
@@ -387,9 +404,15 @@ func childMain() {
 		g := &gctx{rng: rng.Fork()}
 		wg.Add(1)
 		if d.once {
+			// instances of the same once-operation fire at the same instant (overlapping Close calls)
+			at, ok := onceAt[d.name]
+			if !ok {
+				at = time.Duration(durMS) * time.Millisecond * time.Duration(40+g.rng.Intn(30)) / 100
+				onceAt[d.name] = at
+			}
 			go func(d *opDef) {
 				defer wg.Done()
-				time.Sleep(time.Duration(durMS) * time.Millisecond * time.Duration(40+g.rng.Intn(30)) / 100)
+				time.Sleep(at)
 				guard(d, g)
 			}(d)
 			continue
